@@ -1,7 +1,84 @@
 import GluonModel.Sexp
-open GluonModel
+import GluonModel.Determinism
+open GluonModel GluonModel.Determinism
+
+/-! Driver of C16: `rename <type>`, `match <pattern>…`, `implicit (<len>…) <rel>`. -/
+
+mutual
+partial def parseTy : Sexp → Option Ty
+  | .atom "int" => some .int
+  | .list [.atom "v", n] => n.toNat?.map Ty.var
+  | .list [.atom "fn", a, b] => do
+    let a ← parseTy a
+    let b ← parseTy b
+    pure (.fn a b)
+  | .list (.atom "rec" :: fs) => parseRow fs
+  | _ => none
+partial def parseRow : List Sexp → Option Ty
+  | [] => some .rnil
+  | .list [.str n, t] :: rest => do
+    let t ← parseTy t
+    let r ← parseRow rest
+    pure (.rcons n t r)
+  | _ => none
+end
+
+mutual
+partial def renderTy : Ty → String
+  | .var k => "(g " ++ Sexp.quote (nameStr k) ++ ")"
+  | .int => "int"
+  | .fn a b => "(fn " ++ renderTy a ++ " " ++ renderTy b ++ ")"
+  | .rnil => "(rec)"
+  | .rcons n t r => "(rec" ++ renderRow (.rcons n t r) ++ ")"
+partial def renderRow : Ty → String
+  | .rcons n t r => " (" ++ Sexp.quote n ++ " " ++ renderTy t ++ ")" ++ renderRow r
+  | _ => ""
+end
+
+def codesToString (cs : List Nat) : String := String.ofList (cs.map Char.ofNat)
+
+def handleRename (t : Ty) : String :=
+  let r := generalizeTop t
+  if r.1.isEmpty then renderTy r.2
+  else "(forall (" ++ " ".intercalate (r.1.map (fun c => Sexp.quote (codesToString c))) ++ ") "
+    ++ renderTy r.2 ++ ")"
+
+partial def parsePat : Sexp → Option Pat
+  | .atom "v" => some .var
+  | .list [.atom "l", n] => n.toInt?.map Pat.lit
+  | .list (.atom "c" :: .str n :: args) => do
+    let args ← args.mapM parsePat
+    pure (.ctor n args)
+  | _ => none
+
+def renderKey : Key → String
+  | .ctor n a => "(c " ++ Sexp.quote n ++ " " ++ toString a ++ ")"
+  | .lit n => "(l " ++ toString n ++ ")"
+  | .any => "any"
+
+partial def renderTree : Tree → String
+  | .leaf r => "(r " ++ toString r ++ ")"
+  | .fail => "fail"
+  | .sw alts => "(sw" ++ String.join (alts.map (fun a => " (" ++ renderKey a.1 ++ " " ++ renderTree a.2 ++ ")")) ++ ")"
+
+/-- A deliberately odd bucket order (the theorem says it cannot matter): new string keys go to
+    a position derived from their length, new integer keys to the front. -/
+def posS (k : String) (n : Nat) : Nat := (k.length * 7 + 3) % (n + 1)
+def posI (_k : Int) (_n : Nat) : Nat := 0
 
 def handle : List Sexp → String
-  | _ => "unimplemented"
+  | [.atom "rename", t] =>
+    match parseTy t with
+    | some t => handleRename t
+    | none => "bad-request"
+  | .atom "match" :: arms =>
+    match arms.mapM parsePat with
+    | some arms => renderTree (compileMatch 4 posS posI arms)
+    | none => "bad-request"
+  | [.atom "implicit", .list lens, rel] =>
+    match lens.mapM Sexp.toNat?, rel.toNat? with
+    | some lens, some rel => Sexp.quote (implicitName lens rel)
+    | _, _ => "bad-request"
+  | _ => "bad-request"
 
 def main : IO Unit := driverLoop handle
